@@ -55,8 +55,13 @@ struct Access {
     template<typename Item, typename KV> static auto key_equal(const Item& it, const KV& kv, int) -> decltype(it.key() == kv.first.key_) { return it.key() == kv.first.key_; }
     template<typename Item, typename KV> static bool key_equal(const Item&, const KV&, long) { return true; }
 
+    // the walk below needs a map-like index (key -> position) next to a sequence of items; a table restructured in another way
+    // has no structural hook (its behaviour is still checked from outside: add/get/dedup against the model)
     template<typename T, typename K>
-    static std::string table_invariant(const CDNS::BlockTable<T, K>& t, bool expect_unique) {
+    static std::string table_invariant(const CDNS::BlockTable<T, K>& t, bool expect_unique) { return table_invariant_impl(t, expect_unique, 0); }
+    template<typename TT> static std::string table_invariant_impl(const TT&, bool, long) { return ""; }
+    template<typename TT>
+    static auto table_invariant_impl(const TT& t, bool expect_unique, int) -> decltype(t.indexes_.begin()->second, t.items_.size(), std::string()) {
         std::vector<const void*> addrs;
         addrs.reserve(t.items_.size());
         for (auto& it : t.items_)
